@@ -130,6 +130,158 @@ theorem refuser_route (m : Matcher) (n : Node) (path : QStr) :
     obtain ⟨i, ok⟩ := e
     cases ok <;> simp [takeThroughFirstRefusal, ih]
 
+/-! ### 3. end to end -/
+
+theorem mwsOf_append (a b : List Obs) : mwsOf (a ++ b) = mwsOf a ++ mwsOf b := by
+  simp [mwsOf, List.filterMap_append]
+
+theorem mwsOf_cons (o : Obs) (l : List Obs) :
+    mwsOf (o :: l) = (match o with | .mw i ok => [(i, ok)] | _ => []) ++ mwsOf l := by
+  cases o <;> simp [mwsOf]
+
+theorem mwsOf_mwObs (pre : List (Nat × Bool)) : mwsOf (pre.map mwObs) = pre := by
+  induction pre with
+  | nil => rfl
+  | cons e l ih => simp only [List.map_cons, mwsOf_cons, mwObs, ih]; rfl
+
+theorem mwsOf_wObs (b : Bytes) : mwsOf (wObs b) = [] := by unfold wObs; split <;> rfl
+
+theorem mwsOf_err (h : Bytes) (b : Bytes) : mwsOf ([Obs.w h] ++ wObs b ++ [Obs.tc]) = [] := by
+  simp only [mwsOf_append, mwsOf_wObs, mwsOf_cons]; simp [mwsOf]
+
+theorem mwsOf_log (pre : List (Nat × Bool)) (x : List Obs) :
+    mwsOf ([Obs.ev 0, Obs.ev 1, Obs.hp] ++ (pre.map mwObs ++ x) ++ [Obs.ev 2]) = pre ++ mwsOf x := by
+  simp only [mwsOf_append, mwsOf_mwObs, mwsOf_cons]; simp [mwsOf]
+
+theorem not_accepted_bad (env : Env) (sc : RouteScn) (h : C05.accepted env sc = false) {head rest : Bytes}
+    (hb : breakOn CRLF2 sc.stream = some (head, rest)) :
+    match Parser.parseRequestHeaders head [] with
+    | none => True
+    | some rh => env.url rh.rawPath = none := by
+  cases hp : Parser.parseRequestHeaders head [] with
+  | none => trivial
+  | some rh =>
+    simp only
+    cases hu : env.url rh.rawPath with
+    | none => rfl
+    | some pq =>
+      obtain ⟨p, q⟩ := pq
+      have := (C05.accepted_iff env sc).2 ⟨head, rest, rh, p, q, hb, hp, hu⟩
+      rw [h] at this; cases this
+
+theorem valuesOf_single {name k v : Bytes} (hk : (lower k == lower name) = true) (hv : (44 : UInt8) ∉ v)
+    {a b : List (Bytes × Bytes)}
+    (ha : ∀ e ∈ a, (lower e.1 == lower name) = false) (hb : ∀ e ∈ b, (lower e.1 == lower name) = false) :
+    Http.valuesOf name (a ++ (k, v) :: b) = [v] := by
+  have fa : a.filter (fun h => lower h.1 == lower name) = [] := List.filter_eq_nil_iff.2 (by
+    intro e he; rw [ha e he]; simp)
+  have fb : b.filter (fun h => lower h.1 == lower name) = [] := List.filter_eq_nil_iff.2 (by
+    intro e he; rw [hb e he]; simp)
+  simp only [Http.valuesOf, List.filter_append, fa, List.nil_append, List.filter_cons, hk, if_true, fb,
+    List.flatMap_cons, List.flatMap_nil, List.append_nil]
+  exact HB.splitAll_of_not_mem hv
+
+theorem valuesOf_none {name : Bytes} {a : List (Bytes × Bytes)}
+    (ha : ∀ e ∈ a, (lower e.1 == lower name) = false) : Http.valuesOf name a = [] := by
+  have fa : a.filter (fun h => lower h.1 == lower name) = [] := List.filter_eq_nil_iff.2 (by
+    intro e he; rw [ha e he]; simp)
+  simp [Http.valuesOf, fa]
+
+theorem natDigits_no_comma (n : Nat) : (44 : UInt8) ∉ natDigits n := HB.natDigits_not_mem _ (Or.inl (by decide))
+
+/-- **C06.3 (`holds_run`)**: for every environment and every `route` scenario — every handler tree,
+    matcher, verdict assignment and request target, no side condition — the predicate evaluated on
+    implementation traces holds on the run of the model: the middleware observed are exactly those
+    of the route up to and including the first refusal, and after a refusal no handler runs and the
+    only response is the refuser's 403 -/
+theorem holds_run (env : Env) (sc : RouteScn) : holds env sc (Scenario.run env sc.scenario).log = true := by
+  unfold holds
+  have hrun : Scenario.run env sc.scenario = Sock.run env sc.app [.new, .feed sc.stream, .turn] := rfl
+  cases hacc : C05.accepted env sc with
+  | false =>
+    simp only [Bool.not_false, if_true]
+    obtain ⟨head, rest, hb⟩ := C05.stream_breaks sc
+    rw [hrun, run_bad env sc.app sc.stream hb (not_accepted_bad env sc hacc hb)]
+    simp only [mwsOf_append, mwsOf_cons, mwsOf_wObs]
+    simp [mwsOf]
+  | true =>
+    simp only [Bool.not_true, Bool.false_eq_true, if_false]
+    have hlog := C05.run_log env sc hacc
+    cases hroot : sc.root with
+    | none =>
+      rw [hroot] at hlog
+      simp only at hlog
+      have hacts : sc.acts = none := by simp [RouteScn.acts, serverRoute, hroot]
+      rw [hacts, hlog]
+      simp only [mwsOf_append, mwsOf_cons, mwsOf_wObs]
+      simp [mwsOf]
+    | some r =>
+      rw [hroot] at hlog
+      obtain ⟨pre, t, hpre, hlast, hr, hlog⟩ := hlog
+      have hacts : sc.acts = some (route sc.matcher r (sc.p16.drop 1)) := by
+        simp [RouteScn.acts, serverRoute, hroot]
+      simp only [hacts]
+      rw [hlog, mwsOf_log, C05.wire_log, C05.prs_log, hr]
+      cases t with
+      | redirect id loc =>
+        have h1 : mwActs (pre.map mwAct ++ [Act.redirect id loc]) = pre := by
+          rw [mwActs_append, mwActs_map_mwAct, mwActs_terminal rfl, List.append_nil]
+        have h2 : refuser (pre.map mwAct ++ [Act.redirect id loc]) = none := by
+          rw [refuser, h1]; simpa using findRefuser_append_of_accept hpre []
+        rw [h1, h2]
+        simp only [lastObs, mwsOf_cons]; simp [mwsOf]
+      | process id path =>
+        have h1 : mwActs (pre.map mwAct ++ [Act.process id path]) = pre := by
+          rw [mwActs_append, mwActs_map_mwAct, mwActs_terminal rfl, List.append_nil]
+        have h2 : refuser (pre.map mwAct ++ [Act.process id path]) = none := by
+          rw [refuser, h1]; simpa using findRefuser_append_of_accept hpre []
+        rw [h1, h2]
+        simp only [lastObs, mwsOf_cons]
+        split <;> (simp only [mwsOf_cons, mwsOf_append, mwsOf_wObs]; simp [mwsOf])
+      | mw id ok =>
+        have ok' : ok = false := by simpa [C05.isLastAct] using hlast
+        subst ok'
+        have e : pre.map mwAct ++ [Act.mw id false] = (pre ++ [(id, false)]).map mwAct := by simp [mwAct]
+        have h1 : mwActs (pre.map mwAct ++ [Act.mw id false]) = pre ++ [(id, false)] := by
+          rw [e, mwActs_map_mwAct]
+        have h2 : refuser (pre.map mwAct ++ [Act.mw id false]) = some id := by
+          rw [refuser, h1, findRefuser_append_of_accept hpre]; rfl
+        rw [h1, h2]
+        simp only [lastObs, mwsOf_cons, C05.prs_cons, C05.wire_cons, List.nil_append, mwsOf_err, C05.prs_err,
+          C05.wire_err]
+        rw [errHeaders_xmw]
+        obtain ⟨p1, p2⟩ := parse_headOf (c := 403) (by decide) (reason := statusReason 403) (by decide)
+          (hs := [(Sock.CONTENT_LENGTH, natDigits (env.errPage 403 (statusReason 403)).length),
+                  (Sock.CONTENT_TYPE, Sock.TEXT_HTML), (RouteScn.X_MW, natDigits id)])
+          (by
+            intro e he; simp at he
+            rcases he with rfl | rfl | rfl
+            · exact entryOk_cl _
+            · exact entryOk_ct
+            · exact entryOk_xmw _) (env.errPage 403 (statusReason 403))
+        rw [p1]
+        simp only [p2]
+        have v1 : Http.valuesOf RouteScn.X_MW
+            [(Sock.CONTENT_LENGTH, natDigits (env.errPage 403 (statusReason 403)).length),
+              (Sock.CONTENT_TYPE, Sock.TEXT_HTML), (RouteScn.X_MW, natDigits id)] = [natDigits id] := by
+          apply valuesOf_single (a := [_, _]) (b := []) (by decide) (natDigits_no_comma id)
+          · intro e he; simp at he; rcases he with rfl | rfl <;> (dsimp only; decide)
+          · intro e he; cases he
+        have v2 : Http.valuesOf C05.LOCATION
+            [(Sock.CONTENT_LENGTH, natDigits (env.errPage 403 (statusReason 403)).length),
+              (Sock.CONTENT_TYPE, Sock.TEXT_HTML), (RouteScn.X_MW, natDigits id)] = [] := by
+          apply valuesOf_none
+          intro e he; simp at he; rcases he with rfl | rfl | rfl <;> (dsimp only; decide)
+        have v3 : Http.valuesOf Sock.CONTENT_LENGTH
+            [(Sock.CONTENT_LENGTH, natDigits (env.errPage 403 (statusReason 403)).length),
+              (Sock.CONTENT_TYPE, Sock.TEXT_HTML), (RouteScn.X_MW, natDigits id)] =
+            [natDigits (env.errPage 403 (statusReason 403)).length] := by
+          apply valuesOf_single (a := []) (b := [_, _]) (by decide) (natDigits_no_comma _)
+          · intro e he; cases he
+          · intro e he; simp at he; rcases he with rfl | rfl <;> (dsimp only; decide)
+        rw [v1, v2, v3]
+        simp
+
 /-! ### non-vacuity -/
 open Qhttp.C05.Ex in
 example : refuser (route toyM (root false true) path) = some 11 ∧
@@ -137,5 +289,14 @@ example : refuser (route toyM (root false true) path) = some 11 ∧
     chain toyM (root false true) path = [(0, true), (10, true), (11, false), (20, true)] := by decide
 open Qhttp.C05.Ex in
 example : ∃ a ∈ route toyM (root true true) path, isTerminalAct a = true := by decide
+
+open Qhttp.C05.Ex in
+example : holds envX (scEx false) (Scenario.run envX (scEx false).scenario).log = true ∧
+    holds envX (scEx true) (Scenario.run envX (scEx true).scenario).log = true ∧
+    holds envX scNoRoot (Scenario.run envX scNoRoot.scenario).log = true := by decide +kernel
+-- `holds` rejects the same refusing run once a handler observation is added after the refusal
+open Qhttp.C05.Ex in
+example : holds envX (scEx false) ((Scenario.run envX (scEx false).scenario).log ++ [.pr 2 []]) = false := by
+  decide +kernel
 
 end Qhttp.C06
